@@ -72,11 +72,12 @@ KV(kk, vv) == [key |-> kk, val |-> vv]
 I0 == Obj("int", "0")      I1 == Obj("int", "1")
 BT == Obj("bool", "True")  BF == Obj("bool", "False")
 F15 == Obj("float", "1.5") SA == Obj("str", "a")  SE == Obj("str", "")
+F1 == Obj("float", "1.0")
 NONE == Obj("NoneType", "None")
 RED == Obj("Color", "RED") GREEN == Obj("Color", "GREEN")
 OA == Obj("A", "a")        OB == Obj("B", "b")
 
-ScalarObjs == {I0, I1, BT, BF, F15, SA, SE, NONE, RED, GREEN, OA, OB}
+ScalarObjs == {I0, I1, BT, BF, F15, F1, SA, SE, NONE, RED, GREEN, OA, OB}
 ClassObjs == {ClassObj(c) : c \in {"int", "bool", "str", "A", "B", "object"}}
 ContainerObjs ==
     {Cont("list", << >>), Cont("list", <<I1>>), Cont("list", <<SA>>), Cont("list", <<I1, SA>>), Cont("list", <<BT>>),
@@ -85,12 +86,32 @@ ContainerObjs ==
      Cont("set", << >>), Cont("set", <<I1>>), Cont("set", <<SA>>),
      Cont("dict", << >>), Cont("dict", <<KV(SA, I1)>>), Cont("dict", <<KV(I1, SA)>>),
      Cont("dict", <<KV(SA, I1), KV(SE, BT)>>),
-     Cont("list", <<Cont("list", <<I1>>)>>), Cont("tuple", <<Cont("list", <<SA>>), I1>>)}
+     Cont("list", <<Cont("list", <<I1>>)>>), Cont("tuple", <<Cont("list", <<SA>>), I1>>),
+     \* sibling elements that compare equal in Python although their types differ (1 == 1.0 == True)
+     Cont("list", <<Cont("tuple", <<I1>>), Cont("tuple", <<F1>>)>>), Cont("list", <<Cont("tuple", <<F1>>), Cont("tuple", <<I1>>)>>),
+     Cont("list", <<Cont("list", <<I1>>), Cont("list", <<F1>>)>>), Cont("list", <<Cont("list", <<BT>>), Cont("list", <<I1>>)>>),
+     Cont("dict", <<KV(SA, Cont("list", <<BT>>)), KV(SE, Cont("list", <<I1>>))>>), Cont("tuple", <<I1, F1>>)}
 Objects == ScalarObjs \cup ClassObjs \cup ContainerObjs
 
 StrObjs == {o \in ScalarObjs : o.c = "str"}
 
 IsInstance(o, c) == IsSubclass(o.c, c)
+
+\* Python's == on the objects of the universe: numbers compare by value across int / bool / float, containers
+\* element-wise, everything else by class and payload
+NumericClasses == {"int", "bool", "float"}
+KVNumKey(o) == CASE o.v \in {"1", "True", "1.0"} -> "1"
+               [] o.v \in {"0", "False"} -> "0"
+               [] OTHER -> o.v
+RECURSIVE KVLooseEq(_, _)
+KVLooseEq(a, b) ==
+    IF a.c \in NumericClasses /\ b.c \in NumericClasses THEN KVNumKey(a) = KVNumKey(b)
+    ELSE /\ a.c = b.c /\ a.v = b.v /\ Len(a.items) = Len(b.items)
+         /\ \A i \in 1..Len(a.items) :
+               IF a.c = "dict" THEN KVLooseEq(a.items[i].key, b.items[i].key) /\ KVLooseEq(a.items[i].val, b.items[i].val)
+               ELSE KVLooseEq(a.items[i], b.items[i])
+\* KnownValue equality (value.py:622): same outer type and == on the values
+KVEq(a, b) == a.c = b.c /\ KVLooseEq(a, b)
 
 \* elements an object yields when iterated (None = not iterable handled by caller)
 RECURSIVE SeqToSet(_)
@@ -186,7 +207,8 @@ D1Static == TypedAtoms \cup KnownAtoms \cup GenericTerms \cup SeqTerms \cup Subc
 D1 == D1Static \cup {AnyT}
 
 \* depth-2 terms: containers/unions over depth-1 composites (used by simulation / thorough runs)
-Mid == {Generic("list", <<Typed("int")>>), Generic("tuple", <<Typed("str")>>), SeqT("tuple", <<One(Typed("int")), One(Typed("str"))>>),
+Mid == {Generic("list", <<Typed("int")>>), Generic("tuple", <<Typed("str")>>), Generic("tuple", <<Typed("int")>>),
+        SeqT("tuple", <<One(Typed("int"))>>), Generic("list", <<Typed("bool")>>), SeqT("tuple", <<One(Typed("int")), One(Typed("str"))>>),
         Union(<<Typed("int"), Known(NONE)>>), Union(<<Typed("int"), Typed("str")>>), SubclassT(Typed("A")),
         Generic("dict", <<Typed("str"), Typed("int")>>), Typed("int"), Known(I1), Typed("B")}
 D2Static ==
